@@ -348,6 +348,23 @@ var extraAttrs = []string{
 	`"default":"é\n"`,
 	`"default":1.5e3`,
 	`"doc":""`,
+	// unknown attributes that differ from a supported one only in case, '_' or '-'
+	// (JSON member names are case-sensitive: these are simply unknown)
+	`"Name":"NotTheName"`,
+	`"TYPE":"string"`,
+	`"Type":"record"`,
+	`"Size":3`,
+	`"SIZE":77`,
+	`"logical_type":"date"`,
+	`"logical-type":"uuid"`,
+	`"LogicalType":"decimal"`,
+	`"Namespace":"not.the.namespace"`,
+	`"NAMESPACE":"x"`,
+	`"Fields":[]`,
+	`"Items":"long"`,
+	`"Values":"long"`,
+	`"Symbols":["X"]`,
+	`"name_":"n"`,
 }
 
 // fieldExtras are attributes legal on record *fields* (where "type" is the
@@ -359,6 +376,10 @@ var fieldExtras = []string{
 	`"order":"ignore"`,
 	`"aliases":["old"]`,
 	`"zUnknown":{"name":"n","fields":[1,2]}`,
+	`"Name":"NotTheFieldName"`,
+	`"NAME":"x"`,
+	`"Type":"long"`,
+	`"TYPE":["null","string"]`,
 }
 
 func (l *Layout) ws() string {
